@@ -846,3 +846,194 @@ func checkNoSharedElementInLoop(p *load.Program, r *kit.Report, rule string) {
 		r.OKTrivial(rule, "shared-element/none", "-", "no pointer is appended inside a loop in the call trees of this property's entry points")
 	}
 }
+
+// checkStampBehindGuards (C06): in GetTxRequests an entry is stamped as requested (LastRequested =
+// now) only for a node that announced it: the store lies behind contains(NodeIDs, nodeID). A stamp
+// made for a node that never announced the tx restarts the timeout without any request being sent;
+// with periodic polls by every node an undelivered tx never becomes requestable again.
+func checkStampBehindGuards(p *load.Program, r *kit.Report, rule string) {
+	f := fn(p, r, rule, R, "TxManager.GetTxRequests")
+	if f == nil {
+		return
+	}
+	key := "GetTxRequests/stamp-only-for-an-announcer"
+	lastF := p.Field(R, "TxData", "LastRequested")
+	var stamps []ssa.Instruction
+	kit.AllInstrs(f, func(in ssa.Instruction) {
+		if st, ok := in.(*ssa.Store); ok {
+			if fl, _ := kit.FieldOfAddr(st.Addr); fl != nil && fl == lastF {
+				stamps = append(stamps, in)
+			}
+		}
+	})
+	if len(stamps) == 0 {
+		r.Bad(rule, key, posOf(p, f.Blocks[0].Instrs[0]), "GetTxRequests never stamps LastRequested")
+		return
+	}
+	has := kit.FindGuards(f, kit.CallCond(nil, R+".contains"))
+	if len(has) == 0 {
+		r.Unknown(rule, key, posOf(p, stamps[0]), "no contains(NodeIDs, nodeID) test found")
+		return
+	}
+	k := newKeyer()
+	for _, st := range stamps {
+		ok, path := kit.DominatedByEdges(f, st, edgesOf(has, true), nil, p.Pos)
+		r.Check(ok, rule, k.key(key), posOf(p, st), "the stamp lies behind contains(NodeIDs, nodeID)",
+			"LastRequested is stamped for a node that may not have announced the tx ("+path+"): a poll by a bystander restarts the timeout although nothing is requested, and the peers that did announce the tx are refused until it runs out again")
+	}
+}
+
+// checkSideBaseLabel (C19): the locator entry for a side branch pairs the hash of the lowest header
+// the branch holds with THAT header's height — the label only drives the newest-first sort, so a
+// wrong one (the branch tip's height) silently moves an old best-chain hash in front of the recent
+// ones after an unconsolidated reorganisation.
+func checkSideBaseLabel(p *load.Program, r *kit.Report, rule string) {
+	f := fn(p, r, rule, H, "Repository.GetLocatorHashes")
+	if f == nil {
+		return
+	}
+	key := "GetLocatorHashes/side-branch-base-label"
+	heightF := p.Field(H, "HeightHash", "Height")
+	hashF := p.Field(H, "HeightHash", "Hash")
+	lin := kit.NewLin(f)
+	n := 0
+	k := newKeyer()
+	kit.AllInstrs(f, func(in ssa.Instruction) {
+		al, ok := in.(*ssa.Alloc)
+		if !ok || !strings.HasSuffix(al.Type().String(), "HeightHash") || al.Referrers() == nil {
+			return
+		}
+		var hv, hashV ssa.Value
+		for _, ref := range *al.Referrers() {
+			fa, ok := ref.(*ssa.FieldAddr)
+			if !ok || fa.Referrers() == nil {
+				continue
+			}
+			fl, _ := kit.FieldOfAddr(fa)
+			for _, r2 := range *fa.Referrers() {
+				if st, ok := r2.(*ssa.Store); ok && st.Addr == ssa.Value(fa) {
+					if fl == heightF {
+						hv = st.Val
+					}
+					if fl == hashF {
+						hashV = st.Val
+					}
+				}
+			}
+		}
+		if hv == nil || hashV == nil {
+			return
+		}
+		// the hash comes from AtHeight(x).Hash
+		var at *ssa.Call
+		kit.DependsOn(hashV, func(v ssa.Value) bool {
+			if c, ok := v.(*ssa.Call); ok && kit.CallID(c) == H+".Branch.AtHeight" {
+				at = c
+				return true
+			}
+			return false
+		})
+		if at == nil {
+			return // the best-chain entries are built in Branch.GetLocatorHashes
+		}
+		n++
+		want := lin.Of(at.Call.Args[len(at.Call.Args)-1])
+		got := lin.Of(hv)
+		r.Check(got.Equal(want), rule, k.key(key), posOf(p, in), "Height is the height the hash was read at",
+			"the entry pairs the hash at height "+want.String()+" with the label "+got.String()+": the sort by height puts this hash at the wrong place of the locator (after an unconsolidated reorganisation an old best-chain hash comes before the recent ones and a same-chain peer answers from far below our tip)")
+	})
+	if n == 0 {
+		r.Unknown(rule, key, "-", "no side-branch entry {Height, AtHeight(…).Hash} found in GetLocatorHashes")
+	}
+}
+
+// checkConfirmBehindCancelCheck (C04, imported by C05 and C16): the confirmation stage of
+// BlockDownloader.handleBlock (coinbase, ConfirmTx, AppendBlockTxIDs) starts only behind a
+// wasCancelled() == false test made after the last transaction was received — the per-transaction
+// test inside the receive loop does not cover a cancel that lands after the last one.
+func checkConfirmBehindCancelCheck(p *load.Program, r *kit.Report, rule string) {
+	f := fn(p, r, rule, R, "BlockDownloader.handleBlock")
+	if f == nil {
+		return
+	}
+	key := "handleBlock/cancel-check-before-confirm"
+	cb := kit.CallsTo(f, "invoke:"+R+".TxProcessor.ProcessCoinbaseTx")
+	if len(cb) == 0 {
+		kit.AllInstrs(f, func(in ssa.Instruction) {
+			if c, ok := in.(ssa.CallInstruction); ok && c.Common().IsInvoke() && c.Common().Method.Name() == "ProcessCoinbaseTx" {
+				cb = append(cb, c)
+			}
+		})
+	}
+	if len(cb) == 0 {
+		r.Unknown(rule, key, "-", "no ProcessCoinbaseTx call in handleBlock")
+		return
+	}
+	canc := kit.FindGuards(f, kit.CallCond(nil, R+".BlockDownloader.wasCancelled"))
+	// only the tests outside the receive loop count
+	var after []kit.Edge
+	for _, g := range canc {
+		if h, _ := innermostLoop(f, g.If.Block()); h == nil {
+			after = append(after, g.FailEdge())
+		}
+	}
+	ok, path := kit.DominatedByEdges(f, cb[0].(ssa.Instruction), after, nil, p.Pos)
+	r.Check(ok && len(after) > 0, rule, key, posOf(p, cb[0].(ssa.Instruction)), "the confirmation stage lies behind wasCancelled() == false, tested after the receive loop",
+		"the coinbase / ConfirmTx / AppendBlockTxIDs stage can start without a cancellation test after the last transaction ("+path+"): a download cancelled just then (another download of the block finished first, or the block was orphaned) still confirms its transactions and records the block")
+}
+
+// checkExtendedDispatch (C15): handleExtended hands the inner message only to the block or the tx
+// handler. The handler table also holds handleExtended itself (under "extmsg"): a lookup with a
+// command the peer chose freely lets an extended message nest extended messages, one stack frame
+// and one TeeReader per 20 bytes sent, until the runtime aborts the process with a stack overflow
+// that no recover contains.
+func checkExtendedDispatch(p *load.Program, r *kit.Report, rule string) {
+	f := fn(p, r, rule, R, "BitcoinNode.handleExtended")
+	if f == nil {
+		return
+	}
+	hf := p.Field(R, "BitcoinNode", "handlers")
+	allowed := map[string]bool{"block": true, "tx": true}
+	k := newKeyer()
+	n := 0
+	kit.AllInstrs(f, func(in ssa.Instruction) {
+		lu, ok := in.(*ssa.Lookup)
+		if !ok || !loadOfField(lu.X, hf) {
+			return
+		}
+		n++
+		key := k.key("handleExtended/dispatch-only-block-or-tx")
+		if c, isConst := kit.ConstString(lu.Index); isConst {
+			r.Check(allowed[c], rule, key, posOf(p, in), "constant command "+c, "handleExtended dispatches to the handler of `"+c+"`: only block and tx are extended payloads")
+			return
+		}
+		v := kit.Strip(lu.Index)
+		// the lookup is reached only where v was found equal to "block" or "tx"
+		eq := kit.FindGuards(f, func(c ssa.Value) (bool, bool) {
+			b, ok := c.(*ssa.BinOp)
+			if !ok || (b.Op != token.EQL && b.Op != token.NEQ) {
+				return false, false
+			}
+			x, y := kit.Strip(b.X), kit.Strip(b.Y)
+			if y == v {
+				x, y = y, x
+			}
+			if x != v {
+				return false, false
+			}
+			if cs, isC := kit.ConstString(y); !isC || !allowed[cs] {
+				return false, false
+			}
+			return true, b.Op == token.EQL
+		})
+		rr := kit.Reach(f, []kit.Pt{kit.Entry(f)}, kit.Opts{BlockEdge: kit.EdgeSet(edgesOf(eq, true)...)})
+		bad := ""
+		if rr.Has(in) {
+			bad = "the handler table is consulted with a command the peer chose and that was not found to be block or tx (" + rr.PathTo(in, p.Pos) + "): the table holds handleExtended itself under extmsg, so nested extended messages recurse once per 20 bytes sent until the stack overflow aborts the process (no recover contains it); any other handler is reached without its checksum test as well"
+		}
+		r.Check(bad == "", rule, key, posOf(p, in), "the looked-up command is block or tx on every path", bad)
+	})
+	if n == 0 {
+		r.Unknown(rule, "handleExtended/dispatch-only-block-or-tx", "-", "no lookup of the handler table in handleExtended")
+	}
+}
